@@ -187,6 +187,44 @@ func checkC05(p *Program, r *Reporter) {
 			}
 		}
 	}
+	// publishTime = availabilityStartTime is right only for an MPD that never changes (plain $Number$, one period):
+	// such a store must be decided by the MPD type of the request itself, not by a per-adaptation-set value
+	r.Rule("E5-PUBLISHTYPE", "publishTime is set to availabilityStartTime only under a test of the request's MPD type", 1)
+	nAst := 0
+	for _, fn := range cluster(live) {
+		for _, b := range fn.Blocks {
+			for _, in := range b.Instrs {
+				st, ok := in.(*ssa.Store)
+				if !ok {
+					continue
+				}
+				if f, ok := fieldOfAddr(st.Addr); !ok || f != "mpd.MPD.PublishTime" {
+					continue
+				}
+				if f, ok := loadedField(st.Val); !ok || f != "mpd.MPD.AvailabilityStartTime" {
+					continue
+				}
+				nAst++
+				okType := false
+				for _, cd := range effectiveDomConds(b) {
+					bo, ok := cd.V.(*ssa.BinOp)
+					if !ok || bo.Op != token.EQL || !cd.Pos {
+						continue
+					}
+					for _, side := range []ssa.Value{bo.X, bo.Y} {
+						if c, ok := side.(*ssa.Call); ok && c.Call.StaticCallee() != nil && c.Call.StaticCallee().Name() == "liveMPDType" {
+							okType = true
+						}
+					}
+				}
+				r.Decide(okType, "E5-PUBLISHTYPE", shortFn(fn), "store:PublishTime=AST", p.pos(st.Pos()), "dominated by a test of cfg.liveMPDType() itself",
+					"publishTime is reset to availabilityStartTime under a condition that is not the MPD type of the request (e.g. the template type of one adaptation set): a SegmentTimeline MPD with such an adaptation set changes while its publishTime never does", nil)
+			}
+		}
+	}
+	if nAst == 0 {
+		r.Broken("no store of availabilityStartTime into publishTime found")
+	}
 	// (b) after-stop
 	mk := p.mustFunc(r, pkgApp, "makeMPDStatic")
 	if mk == nil {
